@@ -29,7 +29,7 @@ func init() {
 			"a sysex exceeds the buffer when its total length including F0 and F7 is larger than SysExBufferSize",
 			"at the drivers.Reader level the callback contract pads 0/1-data messages with zeros to 3 bytes and reports a stray F7 as [F7 00 00] (internal contract with midi.ListenTo); at the midi.ListenTo level nothing may be delivered for a stray F7",
 		},
-		Require: []string{"streams_exhaustive", "streams_random", "deliveries_l1", "deliveries_l2", "sysex_overflows", "stray_f7", "suffix_checks", "abandoned_messages"},
+		Require: []string{"streams_exhaustive", "streams_random", "deliveries_l1", "deliveries_l2", "sysex_overflows", "stray_f7", "suffix_checks", "abandoned_messages", "large_buffer_sysex_streams"},
 		Run:     runC06,
 		Post: func(m *mon.Merged) {
 			for _, cfg := range c06Cfgs {
@@ -274,6 +274,47 @@ func runC06(c *mon.Ctx) {
 		if i < 1 {
 			c.Sample("random-stream", mon.Hex(head(s, 80)))
 		}
+	})
+
+	// sysex lengths around the growth steps of large configured buffers, after a garbage prefix:
+	// delivered iff the total length does not exceed the configured buffer
+	bigBufs := []uint32{1025, 1500, 2048, 4096, 5000, 8192}
+	bigLens := []int{1023, 1024, 1025, 1026, 2047, 2048, 2049, 2050, 4095, 4096, 4097, 4098, 5000, 5001, 8192, 8193}
+	c.Each("large-buffer-sysex", int64(len(bigBufs)*len(bigLens)), func(i int64, r *mon.Rand) {
+		cfg := liveCfg{sysex: true, clock: true, sense: true, buf: bigBufs[int(i)/len(bigLens)]}
+		n := bigLens[int(i)%len(bigLens)]
+		sx := make([]byte, n)
+		sx[0] = 0xF0
+		for j := 1; j < n-1; j++ {
+			sx[j] = byte(j*7) & 0x7F
+		}
+		sx[n-1] = 0xF7
+		prefix := []byte{0x40, 0x90, 0x41, 0xF4, 0x33, 0xF0, 0x01}[:r.Intn(8)]
+		stream := append(append(append([]byte(nil), prefix...), sx...), 0x90, 0x3C, 0x40, 0xF8)
+		parts := r.Partition(len(stream), r.Pick(1000000, 512, 33))
+		chunks := make([][]byte, len(parts))
+		deltas := make([]int32, len(parts))
+		off := 0
+		for j, p := range parts {
+			chunks[j] = stream[off : off+p]
+			off += p
+			deltas[j] = int32(j%3 + 1)
+		}
+		in := map[string]any{"sysex_total_length": n, "config": cfg.String(), "prefix": mon.Hex(prefix)}
+		var got []obs
+		if c.Guard("panic:reader", in, func() { got = runL1(cfg, chunks, deltas, nil) }) {
+			return
+		}
+		want := refRun(cfg, chunks, deltas, nil)
+		c.Count("large_buffer_sysex_streams", 1)
+		c.Count("streams_random", 1)
+		if n > int(cfg.buf) {
+			c.Count("sysex_overflows", 1)
+		}
+		if d := cmpL1(got, want, true); d != "" {
+			c.Violation("l1-vs-receiver", fmt.Sprintf("sysex of %d bytes under %s: %s", n, cfg, d), in, fmt.Sprintf("%d reference deliveries", len(want)), fmt.Sprintf("%d deliveries", len(got)))
+		}
+		c.Enumerated(1)
 	})
 
 	// garbage prefix + well-formed suffix: the suffix must be decoded exactly (ground truth
